@@ -95,7 +95,7 @@ let judge (c : case) =
   let report v =
     out (Printf.sprintf "%d %s" !step v);
     if String.length v >= 3 && String.sub v 0 3 = "bad" && !first_bad = None then
-      first_bad := Some (Printf.sprintf "%d %s" !step v) in
+      first_bad := Some (Printf.sprintf "%d %s" !step (String.sub v 4 (String.length v - 4))) in
   Stdlib.List.iter
     (fun (tag, toks) ->
       match tag, toks with
